@@ -89,7 +89,8 @@ def make_case(seed, index, tier):
                 op.update(op='get')
                 if kind == 'filterstore':
                     op['filter'] = rng.choice(['any', 'any', 'even', 'odd', 'big', 'none',
-                                               'isint', 'isfloat', 'mod3', 'text', 'maybe'])
+                                               'isint', 'isfloat', 'mod3', 'text', 'maybe',
+                                               'gate', 'gate', 'gate-odd'])
             elif requests:
                 op.update(op=rng.choice(['cancel', 'interrupt']), target=rng.choice(requests))
             else:
@@ -156,6 +157,17 @@ FILTERS = {
 }
 
 
+def filter_for(name, clock):
+    """the filter `name`; filters of the gate family are *stateful*: their verdict on one and the
+    same item changes with (virtual) time, like `lambda machine: machine.ready` does for a
+    machine that is serviced meanwhile - the store has to ask again whenever it re-evaluates"""
+    if name == 'gate':
+        return lambda item: int(clock() // 3) % 2 == 1
+    if name == 'gate-odd':
+        return lambda item: int(clock() // 2) % 2 == 0 and item % 2 == 1
+    return FILTERS[name]
+
+
 def ident(item):
     """items are compared by identity, not equality: 2 and 2.0 are different items"""
     return item if item is None or isinstance(item, (tuple, list)) else repr(item)
@@ -206,7 +218,7 @@ def run_model(case):
                 if kind == 'container':
                     request['amount'] = op['amount']
                 if kind == 'filterstore':
-                    request['accept'] = FILTERS[op['filter']]
+                    request['accept'] = filter_for(op['filter'], lambda: model.now)
                 side[number] = 'get'
                 model.get(request)
             elif what == 'request':
@@ -459,7 +471,7 @@ def run_case(case):
                 if kind == 'container':
                     request = res.get(op['amount'])
                 elif kind == 'filterstore':
-                    request = res.get(FILTERS[op['filter']])
+                    request = res.get(filter_for(op['filter'], lambda: env.now))
                 else:
                     request = res.get()
             else:
